@@ -273,9 +273,12 @@ def specSparseCholUpper (u : Uplo) (p : Array Nat) (M : Mat α) (x : Vec α) : O
 /-- SparseRegularInverse::solve -/
 def specRegularInverseSolve (u : Uplo) (M : Mat α) (x : Vec α) : Option (Vec α) := fullSolve (symMat u M) x
 
-/-- SparseRegularInverse::solve AS CODED in the unchanged tree (known finding F7): `m_cg` is an
-    `Eigen::ConjugateGradient<SparseMatrix>` whose triangle option defaults to `Lower`, whatever the wrapper's `Uplo` is -/
-def regularInverseSolveAsCoded (_u : Uplo) (M : Mat α) (x : Vec α) : Option (Vec α) := fullSolve (symMat .lower M) x
+/-- SparseRegularInverse::solve AS CODED (after repair fae71a7): `m_cg` is an `Eigen::ConjugateGradient<SparseMatrix, Uplo>`, it
+    reads the wrapper's own triangle (the generated footprint `Gen.OpsFootprint.uploUses` records the template argument). -/
+def regularInverseSolveAsCoded (u : Uplo) (M : Mat α) (x : Vec α) : Option (Vec α) := fullSolve (symMat u M) x
+/-- the behaviour BEFORE the repair (finding F7): `ConjugateGradient<SparseMatrix>` defaulted to `Lower` whatever `Uplo` was.
+    Kept only so that the property file can show what the repaired theorem excludes. -/
+def regularInverseSolveBeforeFix (_u : Uplo) (M : Mat α) (x : Vec α) : Option (Vec α) := fullSolve (symMat .lower M) x
 
 /-- the matrix `SymShiftInvert::set_shift(σ)` factorizes, from the STORED matrices `A`, `B` (junk = 0 outside the assembled
     triangle; by `c11_shiftinvert_assembly` the junk is never read) -/
